@@ -295,7 +295,113 @@ def r5_remove_tag(ctx):
                   sample={"builder": ty, "form": form, "map_ops": names})
 
 
+def selector_uses(b, sel_local):
+    """how a selector value is applied: {'set' (|), 'clear' (& !sel), 'test' (& sel), 'toggle' (^)}"""
+    uses = set()
+    nots = set()
+    holders = set(copies_of(b, sel_local))
+    for i, j, st in b.stmts():
+        r = st["r"]
+        if r["k"] == "Un" and r["op"] == "Not" and op_local(r["o"][0]) in holders:
+            nots |= set(copies_of(b, st["p"][0]))
+    for i, j, st in b.stmts():
+        r = st["r"]
+        if r["k"] != "Bin":
+            continue
+        ls = [op_local(o) for o in r["o"]]
+        if r["op"] == "BitOr" and any(l in holders for l in ls):
+            uses.add("set")
+        elif r["op"] == "BitXor" and any(l in holders or l in nots for l in ls):
+            uses.add("toggle")
+        elif r["op"] == "BitAnd" and any(l in nots for l in ls):
+            uses.add("clear")
+        elif r["op"] == "BitAnd" and any(l in holders for l in ls):
+            uses.add("test")
+    return uses
+
+
+def r6_selector_application(ctx):
+    """associate / dissociate are idempotent bit operations: set is `|= sel`, clear is `&= !sel`, a query is `& sel`. A toggle (`^=`)
+    clears only a bit that was set - dissociating a pair that is not associated (or twice) SETS it"""
+    rule = "C19.R6"
+    ctx.rule(rule, "every bit selector is applied as set (|), clear (& !sel) or test (& sel), never as a toggle (^); add_* methods set, remove_* methods clear")
+    n = 0
+    for b in scope_bodies(ctx):
+        for i, j, st in b.stmts():
+            r = st["r"]
+            if r["k"] == "Bin" and r["op"] in ("Shr", "Shl", "ShrUnchecked", "ShlUnchecked") and rem8_base(b, r["o"][1]) is not None:
+                uses = selector_uses(b, st["p"][0])
+                if not uses:
+                    continue
+                n += 1
+                ctx.saw(b)
+                want = None
+                # the per-tag primitives (methods of the *Tag types); builders' remove_file rebuilds whole masks and is R3's business
+                is_tag = bool(re.search(r"Tag$", b.self_ty or ""))
+                if is_tag and re.match(r"(add|set|associate)", b.item or ""):
+                    want = "set"
+                elif is_tag and re.match(r"(remove|clear|dissociate|unset)", b.item or ""):
+                    want = "clear"
+                ok = "toggle" not in uses and (want is None or want in uses)
+                ctx.check(ok, rule, [b.id, "selector-use", ",".join(sorted(uses))], "selector applied as %s" % "/".join(sorted(uses)),
+                          "%s applies its bit selector as %s%s: a toggle is not idempotent - removing a file that the tag does not hold (or removing twice) sets the "
+                          "bit, so queries, size totals and the on-disk mask gain files nobody associated" %
+                          (ctx._stable(b.id), sorted(uses), (" (expected %s)" % want) if want else ""), "%s:%d" % (b.file, st["l"]))
+    ctx.floor(rule, n, 5, "applied bit selectors in install/download/size")
+
+
+COMBINE = re.compile(r"::(intersect|union|intersection|bitand|bitor|bit_and|bit_or)$")
+
+
+def lost_accumulation(b):
+    """[(call, var)]: a mask combination (intersect / union) inside a loop whose result overwrites a variable that lives across
+    iterations, while the combination does not read that variable: only the last iteration survives"""
+    out = []
+    nxs = [c for c in b.calls if re.search(r"\bIterator>?::next$", c.orig_name or c.name)]
+    for c in b.calls:
+        if not (COMBINE.search(c.name) or COMBINE.search(c.orig_name or "")):
+            continue
+        loops = [nx for nx in nxs if c.bb in b.reachable(b.succ[nx.bb]) and nx.bb in b.reachable(b.succ[c.bb])]
+        if not loops:
+            continue
+        nx = loops[0]
+        loop_blocks = {x for x in b.reachable(b.succ[nx.bb]) if nx.bb in b.reachable(b.succ[x])}
+        # variables the result is stored into that are also defined outside the loop (loop-carried)
+        tgt = set(copies_of(b, c.dest[0]))
+        for i, j, st in b.stmts():
+            if st["r"]["k"] == "Use" and op_local(st["r"]["o"][0]) in tgt and len(st["p"]) == 1:
+                tgt.add(st["p"][0])
+        carried = [v for v in tgt if b.locals[v].get("u") and any(bb not in loop_blocks for (bb, idx, kind, payload) in b.defs.get(v, []))]
+        for v in carried:
+            reads = set()
+            for a in c.args:
+                if op_local(a) is not None:
+                    reads |= Slice(b, [op_local(a)], transparent=True).locals
+            if v not in reads:
+                out.append((c, v))
+    return out
+
+
+def r7_combination_accumulates(ctx):
+    rule = "C19.R7"
+    ctx.rule(rule, "an all-of / any-of combination of tag masks computed in a loop folds its own previous value (no overwrite of the accumulator)")
+    n = 0
+    for b in scope_bodies(ctx):
+        has = any(COMBINE.search(c.name) for c in b.calls)
+        if has:
+            n += 1
+            ctx.saw(b)
+        for (c, v) in lost_accumulation(b):
+            ctx.bad(rule, [b.id, "accumulator-overwritten", b.local_name(v) or str(v)],
+                    "%s combines tag masks in a loop but assigns each result over `%s` without reading it: only the last pair of tags is combined, so an all-of "
+                    "query over three or more tags returns files that lack the earlier tags (and the size total sums over that superset)" %
+                    (ctx._stable(b.id), b.local_name(v) or v), c.loc())
+    ctx.info("C19.R7: %d bodies combine masks with intersect/union" % n)
+
+
 def run(ctx):
+    r6_selector_application(ctx)
+    r7_combination_accumulates(ctx)
     r1_bit_order(ctx)
     r2_mask_len(ctx)
     r3_r4_remove_file(ctx)
@@ -303,4 +409,4 @@ def run(ctx):
 
 
 from .selftest import for_families as _ff  # noqa: E402
-selftest = _ff(['slice', 'loop'])
+selftest = _ff(['slice', 'loop', 'fold'])
